@@ -18,7 +18,42 @@ func init() {
 	register(&Property{ID: "C09", Gen: genC09, Exec: execC09})
 }
 
+// genC09Positionless: a stream opened before anything was written has no
+// position in the change log; it must neither skip events that retention
+// removed before it saw them, nor report a lost position when nothing was
+// removed - in particular not when the commit that would have trimmed failed.
+func genC09Positionless(seed uint64, run int) *Plan {
+	r := newRNG(seed, 99)
+	p := &Plan{Prop: "C09", Seed: seed, Run: run}
+	p.Cfg = Cfg{Store: "mem", Strategy: pick(r, "random", "pct", "sticky", "nonpreempt"), PCTDepth: 1 + r.IntN(3), ExpireMs: 60000}
+	p.Cfg.MinOplog = 1 + r.IntN(2)
+	p.Cfg.MaxOplog = p.Cfg.MinOplog + r.IntN(3)
+	p.Cfg.MinAgeS, p.Cfg.MaxAgeS = 1, pick(r, int64(1), 3600)
+	w := TaskPlan{Name: "writer0", Role: "writer"}
+	w.Ops = append(w.Ops, Op{K: "sleep", Ms: 5})
+	n := p.Cfg.MaxOplog + 1 + r.IntN(3)
+	for i := 0; i < n; i++ {
+		w.Ops = append(w.Ops, Op{K: "insertOne", DB: "db", C: "c0", D: jd(bson.D{{Key: "_id", Value: int32(i)}, {Key: "v", Value: fmt.Sprintf("e%d", i+1)}})})
+		w.Ops = append(w.Ops, Op{K: "sleep", Ms: pick(r, int64(1100), 1100, 2100, 300)})
+	}
+	c := TaskPlan{Name: "consumer0", Role: "consumer"}
+	c.Ops = append(c.Ops, Op{K: "watch", Scope: pick(r, "client", "db", "coll"), DB: "db", C: "c0"})
+	c.Ops = append(c.Ops, Op{K: "sleep", Ms: int64(r.IntN(n * 1500))})
+	for k := 1 + r.IntN(n+1); k > 0; k-- {
+		c.Ops = append(c.Ops, Op{K: pick(r, "next", "next", "trynext"), N: 99, Ctx: "deadline", Ms: pick(r, int64(50), 1500, 4000)})
+	}
+	p.Tasks = []TaskPlan{w, c}
+	if r.IntN(3) > 0 {
+		// the commit that would trim for the first time (or one next to it) fails in the store
+		p.Faults = append(p.Faults, Fault{Kind: "store-before", At: p.Cfg.MaxOplog + r.IntN(2)})
+	}
+	return p
+}
+
 func genC09(seed uint64, run int, tier string) *Plan {
+	if newRNG(seed, 0x909).IntN(100) < 6 {
+		return genC09Positionless(seed, run)
+	}
 	r := newRNG(seed, 9)
 	p := &Plan{Prop: "C09", Seed: seed, Run: run}
 	p.Cfg = Cfg{
@@ -27,6 +62,7 @@ func genC09(seed uint64, run int, tier string) *Plan {
 		PCTDepth: 1 + r.IntN(3),
 		ExpireMs: pick(r, int64(500), 5000, 60000),
 	}
+	p.Cfg.Fine = fineKnob(seed, 15, 3)
 	trim := r.IntN(2) == 0
 	if trim {
 		p.Cfg.MinOplog = 1 + r.IntN(3)
@@ -120,6 +156,7 @@ func genC09(seed uint64, run int, tier string) *Plan {
 
 type gEvent struct {
 	doc    bson.D
+	id     string // identity: the bytes of the whole event (tokens alone would hide events that share one)
 	token  string
 	db     string
 	coll   string
@@ -144,15 +181,16 @@ func execC09(t *testing.T, plan *Plan) *Outcome {
 			// appended events = those with an id greater than every earlier one
 			seen := map[string]bool{}
 			for _, g := range log {
-				seen[g.token] = true
+				seen[g.id] = true
 			}
 			_ = n
 			for _, ev := range cur {
 				tok := valStr(model.Get(ev, "_id"))
-				if seen[tok] {
+				id := string(model.Bytes(ev))
+				if seen[id] {
 					continue
 				}
-				g := &gEvent{doc: ev, token: tok, commit: c.Seq, at: c.At}
+				g := &gEvent{doc: ev, id: id, token: tok, commit: c.Seq, at: c.At}
 				g.db, _ = model.Get(ev, "ns.db").(string)
 				g.coll, _ = model.Get(ev, "ns.coll").(string)
 				g.typ, _ = model.Get(ev, "operationType").(string)
@@ -320,6 +358,15 @@ func indexOfToken(log []*gEvent, tok string) int {
 	return -1
 }
 
+func indexOfID(log []*gEvent, id string) int {
+	for i, g := range log {
+		if g.id == id {
+			return i
+		}
+	}
+	return -1
+}
+
 func rawTok(r bson.Raw) string {
 	var d bson.D
 	if err := bson.Unmarshal(r, &d); err != nil {
@@ -331,7 +378,8 @@ func rawTok(r bson.Raw) string {
 // startRange returns the admissible global start positions of a stream.
 func startRange(st *streamState, log []*gEvent, evCount []int) (lo, hi int, ok bool) {
 	if st.startTok != nil {
-		i := indexOfToken(log, rawTok(st.startTok))
+		// the position is the delivered event the token was taken from
+		i := indexOfID(log, string(model.Bytes(st.startEv)))
 		if i < 0 {
 			return 0, 0, false
 		}
@@ -352,6 +400,7 @@ func c09Stream(e *Env, st *streamState, log []*gEvent, evCount []int) *Violation
 	}
 	// delivered events without the synthetic invalidate
 	var got []string
+	var gotEvents []bson.D
 	invalidated := false
 	for i, ev := range st.events {
 		if model.Get(ev, "operationType") == "invalidate" {
@@ -361,7 +410,14 @@ func c09Stream(e *Env, st *streamState, log []*gEvent, evCount []int) *Violation
 			invalidated = true
 			continue
 		}
-		got = append(got, valStr(model.Get(ev, "_id")))
+		got = append(got, string(model.Bytes(ev)))
+		gotEvents = append(gotEvents, ev)
+		tok := valStr(model.Get(ev, "_id"))
+		for _, prev := range st.events[:i] {
+			if valStr(model.Get(prev, "_id")) == tok {
+				return violation("C09", "token-not-unique", "", fmt.Sprintf("a stream delivered two events with the same resume token %s: resuming from it cannot continue with the next event", tok))
+			}
+		}
 	}
 	var why string
 	// latest admissible start first: it owes the fewest events
@@ -373,9 +429,9 @@ func c09Stream(e *Env, st *streamState, log []*gEvent, evCount []int) *Violation
 			continue
 		}
 		for i := range got {
-			if got[i] != exp[i].token {
+			if got[i] != exp[i].id {
 				kind := "out of order or skipped"
-				if j := indexOfToken(log, got[i]); j >= 0 && j < p {
+				if j := indexOfID(log, got[i]); j >= 0 && j < p {
 					kind = "from before the start position"
 				}
 				for k := 0; k < i; k++ {
@@ -383,7 +439,7 @@ func c09Stream(e *Env, st *streamState, log []*gEvent, evCount []int) *Violation
 						kind = "delivered twice"
 					}
 				}
-				why = fmt.Sprintf("delivered event %d is %s but the %d-th matching event after the start position is %s (%s)", i, got[i], i, exp[i].token, kind)
+				why = fmt.Sprintf("delivered event %d is %s but the %d-th matching event after the start position is %s (%s)", i, docStr(gotEvents[i]), i, docStr(exp[i].doc), kind)
 				break
 			}
 		}
@@ -486,15 +542,19 @@ func c09Call(e *Env, a *actor, c *CallRec, log *[]*gEvent, evCount []int) {
 		case "lost-position":
 			e.probe("lost-position")
 			st.ended = "lost"
-			// the position of the stream must really be gone: its last delivered event is no longer in the log
-			if n := len(st.events); n > 0 {
-				last := valStr(model.Get(st.events[n-1], "_id"))
-				for _, ev := range oplogOf(e.engine.Catalog()) {
-					if valStr(model.Get(ev, "_id")) == last {
-						// the stream may have scanned past filtered-out events that were trimmed since; only
-						// flag when nothing at all was trimmed after the last delivered event
-						_ = ev
+			// the position must really be gone. The stream's internal position is some event at or after the one
+			// preceding its earliest admissible start position (it may have scanned past events outside its
+			// scope), and retention only removes a prefix: if that event is still in the log - or nothing was ever
+			// removed - no event the stream had not seen can have been discarded
+			if lo, _, ok := startRange(st, *log, evCount); ok {
+				oldest := len(*log)
+				if cur := oplogOf(e.engine.Catalog()); len(cur) > 0 {
+					if i := indexOfID(*log, string(model.Bytes(cur[0]))); i >= 0 {
+						oldest = i
 					}
+				}
+				if oldest <= max(lo-1, 0) {
+					e.violate(violation("C09", "lost-position-without-loss", "", fmt.Sprintf("a stream (scope=%v start=%s) failed with a lost position although retention has not removed any event at or after its start position (oldest retained event %d, start position %d)", st.scope, st.op.Start, oldest, lo)))
 				}
 			}
 		case "ctx-deadline":
